@@ -704,6 +704,27 @@ def check_C18(rep, prog, tier):
             livekinds = {p: k[1] for p, k in b['kinds'].items()}
             got_native = [g for g in got_native if g[1] == '-' or livekinds.get(g[0]) == 'File']
         reproduced = bool(out.get('panic')) if b['kind'] == 'panic' else (got_native is not None and got_native != want)
+        if not reproduced and b['kind'] != 'panic' and sc.get('stored') and b.get('presence') != 'nested':
+            # second attempt: the stored version written by the real backup() from a tree with the stored side's metadata (a defect
+            # in what conserve RECORDS does not show in an archive written directly in the documented format)
+            st_tree = []
+            for e in sc['stored']:
+                t = {'path': e['path'], 'kind': e['kind'], 'mtime': e['mtime'], 'mode': e['mode']}
+                if e['kind'] == 'File':
+                    t.update(content_len=e.get('size', 0), content_class=7)
+                if e['kind'] == 'Symlink':
+                    t['target'] = e.get('target', 't1')
+                if e.get('user') is None and e['path'] != '/':
+                    t['user_unnamed'] = True
+                st_tree.append(t)
+            sc2 = dict(sc)
+            sc2['stored_tree'] = st_tree
+            out2, path2 = runner.replay(sc2, 'C18_diff')
+            g2 = out2.get('backup_changes') if b.get('which') == 'backup-callback' else out2.get('diff')
+            if b.get('which') == 'backup-callback' and g2 is not None:
+                g2 = [g for g in g2 if g[1] == '-' or livekinds.get(g[0]) == 'File']
+            if g2 is not None and g2 != want:
+                reproduced, path = True, path2
         rep.violation(key, '%s on presence %s kinds %s: reported %s, real differences %s' % (
             b.get('which'), b.get('presence'), b.get('kinds'), b.get('got'), b.get('want')), path, reproduced)
     if inconc:
